@@ -82,6 +82,9 @@ type Exec struct {
 	exports map[string]map[string]model.Doc
 	// inCrashSettle: the op's post-state is being reconstructed after a crash
 	inCrashSettle bool
+	// RecordObs: keep a backend-independent log of what each operation returned (E-DIFF)
+	RecordObs bool
+	Obs       []string
 	// faultable store calls made by the last primary public call
 	targetFCalls, lastTargetFCalls int
 	// Acks is called after every completed op (worker mode).
@@ -333,10 +336,29 @@ const (
 // judge compares err with the expectation. want: "" success, "any" any error,
 // otherwise a sentinel name. okProps are the properties blamed when a valid
 // operation fails or an invalid one succeeds.
+func errClass(err error) string {
+	if err == nil {
+		return "ok"
+	}
+	for name, s := range sentinels {
+		if errors.Is(err, s) {
+			return name
+		}
+	}
+	return "error"
+}
+
+func (e *Exec) obs(format string, args ...interface{}) {
+	if e.RecordObs {
+		e.Obs = append(e.Obs, fmt.Sprintf("op#%d ", e.opIdx)+fmt.Sprintf(format, args...))
+	}
+}
+
 func (e *Exec) judge(err error, want string, okProps []string, what string) outcome {
 	if errors.Is(err, errCrashed) {
 		return outCrashed
 	}
+	e.obs("%s -> %s", what, errClass(err))
 	if e.V != nil {
 		return outBad
 	}
@@ -669,6 +691,7 @@ func (e *Exec) checkFindAll(q *model.Query, docs []*document.Document) queryResu
 	if len(docs) > 0 {
 		e.probe("findall-nonempty")
 	}
+	e.obs("FindAll ids in order: %s", strings.Join(res.ids, ","))
 	if !windowed {
 		if len(docs) != len(matching) {
 			var missing []string
